@@ -17,7 +17,8 @@ from symx import core, solve
 from symx.core import CTX, SB, explore
 
 PROPERTY = "C14"
-FUNCS = ["beyond.orbits.cov:Cov.frame", "beyond.orbits.cov:Cov.copy", "beyond.orbits.statevector:StateVector.frame"]
+FUNCS = ["beyond.orbits.cov:Cov.frame", "beyond.orbits.cov:Cov.copy", "beyond.orbits.statevector:StateVector.frame",
+         "beyond.orbits.statevector:StateVector.cov", "beyond.orbits.cov:Cov.orb"]
 STUBS = ["Frame -> symbolic integer index (==/!=/in fork through the solver)", "Orientation.convert_to -> typed rotation Rot(src->dst)",
          "to_local -> typed rotation Rot(coordinate frame of the state copy -> local frame defined by those coordinates)",
          "Cov.base -> typed covariance value (frame tag), setfield records the new value", "private state copy -> object with the "
@@ -462,8 +463,75 @@ def cov_new_case():
                      "holds the values it was given")
 
 
+def attach_group():
+    """the real StateVector.cov setter: whatever state the covariance was built with (another state, of the same or of another
+    date), after `state.cov = cov` the covariance holds a private copy of *that* state -- QSW/TNW are then its triads"""
+    import importlib
+    covmod, TCovArr = load_cov()
+    svmod = importlib.import_module("beyond.orbits.statevector")
+    obs = []
+    A, D1, D2 = z3.Int("A"), z3.Int("D1"), z3.Int("D2")
+    n = 0
+
+    class SD:
+        """symbolic date: ==/!= fork through the solver"""
+        def __init__(self, idx):
+            self.idx = _ix(idx)
+
+        def __eq__(self, o):
+            return SB(self.idx == o.idx) if isinstance(o, SD) else False
+
+        def __ne__(self, o):
+            r = self.__eq__(o)
+            return ~r if isinstance(r, SB) else not r
+
+        def __hash__(self):
+            return id(self)
+
+    class IOrb(TOrb):
+        """state with an identity tag that its copies keep"""
+        def __init__(self, coords_frame, ident, date):
+            super().__init__(coords_frame)
+            self.ident, self.date, self._data = ident, date, {}
+
+        def copy(self, form=None, frame=None):
+            o = IOrb(self._f.idx, self.ident, self.date)
+            if frame is not None:
+                o._f = SF(frame.idx)
+            return o
+
+    def setup():
+        CTX.pre += [A >= 0, A < N_INERTIAL, D1 >= 0, D1 <= 1, D2 >= 0, D2 <= 1]
+        REC.checks.clear()
+
+    def body():
+        built_with = IOrb(A, 1, SD(D1))
+        cov = TCovArr(built_with, TCov(A, None), SF(A))
+        sv = IOrb(A, 2, SD(D2))
+        REC.checks.clear()
+        svmod.StateVector.cov.fset(sv, cov)
+        REC.need("the covariance is the state's covariance", z3.BoolVal(sv._data.get("cov") is cov))
+        REC.need("the covariance holds a copy of the state it was assigned to", z3.BoolVal(getattr(cov.orb, "ident", None) == 2))
+        REC.need("that copy is private", z3.BoolVal(cov.orb is not sv))
+        return list(REC.checks)
+
+    for pc, checks in explore(body, maxpaths=100, setup=setup):
+        n += 1
+        goals = [z3.Not(c) for _, c in checks if not z3.is_true(z3.simplify(c))]
+        if not goals:
+            continue
+        s = z3.Solver()
+        for c in list(CTX.pre) + list(pc):
+            s.add(c)
+        s.add(z3.Or(goals))
+        obs.append(dict(name=f"attach/p{n}", smt2=s.sexpr(), trivial=False, expect="unsat", vars=["A", "D1", "D2"], timeout=30,
+                        solver="z3", desc="StateVector.cov setter: the covariance is re-attached to the receiving state",
+                        replay={"k": "attach"}, n_constraints=len(pc), tags=["typed"]))
+    return obs, {"paths": n}
+
+
 def groups(tier):
-    g = {"follow": follow_group}
+    g = {"follow": follow_group, "attach": attach_group}
     g["construct"] = lambda: __import__("symx.case", fromlist=["run_cases"]).run_cases([cov_new_case()])
     for k in range(1, bounds(tier)["sequence_length"] + 1):
         g[f"seq{k}"] = (lambda k=k: run_sequence(k))
@@ -498,6 +566,22 @@ def replay(ob, model):
         ok = o.cov.frame.name == want and o.frame.name == T0
         return {"reproduced": not ok, "signature": "StateVector.frame covariance clause",
                 "detail": f"attach={A} cov frame={C} new state frame={T0}: cov ends in {o.cov.frame.name}, expected {want}"}
+    if k == "attach":
+        from beyond.orbits.cov import Cov as _Cov
+        from datetime import timedelta
+        rng = np.random.default_rng(7)
+        L = rng.normal(size=(6, 6))
+        C0 = L @ L.T * 1e4
+        d = Date(2016, 5, 5, 12)
+        d2 = d if int(model.get("D1", 0)) == int(model.get("D2", 0)) else d + timedelta(seconds=60)
+        b = StateVector([7e6, 1e5, -2e5, 100.0, 7.5e3, 500.0], d, "cartesian", A)
+        o = StateVector([-1e5, 7.2e6, 3e5, -7.4e3, 50.0, 900.0], d2, "cartesian", A)
+        cov = _Cov(b, C0.copy(), b.frame)
+        o.cov = cov
+        ok = o.cov is cov and np.allclose(np.asarray(cov.orb.copy(form="cartesian")), np.asarray(o)) and cov.orb is not o
+        return {"reproduced": not ok, "signature": "StateVector.cov setter keeps the state the covariance was built with",
+                "detail": f"covariance built with state B ({'same' if d2 is d else 'other'} date) assigned to state O in {A}: "
+                          f"cov.orb = {np.asarray(cov.orb)[:3]}, O = {np.asarray(o)[:3]}"}
     if k == "copyseq":
         return replay_copyseq(ob, model, A)
     if k == "copy":
